@@ -14,6 +14,9 @@ CLAIMED = {
     "C09": ("Lean 4 theorems over translator-regenerated unit tables (decide +kernel over all unit pairs, lifted to every magnitude in any ordered field) + bit-exact correspondence run",
             "Proof: every clause of the property is a Lean theorem over the conversion tables regenerated from the Rust source on each run (identity, linearity, 0.1% round trip, 0.1% physical factor, create_time/create_speed/create_energy definitions and rejection), for all magnitudes in any linearly ordered field. The constructors' code shape is guarded by the translator and their behaviour tied by a bit-exact differential run on every unit combination.",
             "§5 C09"),
+    "C01": ("Lean 4 invariant proof over the A*/Dijkstra loop model (tree invariant by induction over every schedule) + backtracking lemmas; bit-exact full-stack correspondence replaying the implementation's pop schedule",
+            "Proof: the tree invariant of run_a_star (every entry's edge joins parent to key vertex in search direction, labels strictly decrease towards the origin, the origin has no entry) is proved by induction over the loop for every instance, source, target and every schedule the priority queue may take; consequences: the backtracked route is a non-empty contiguous origin-to-destination walk with no repeated edge or vertex and backtracking never fails. Positivity of edge costs is proved from the cost model for every concrete configuration. The model is tied to the code by replaying the implementation's own pop sequence (hook) through the compiled model on random full-stack instances and comparing trees, routes, states and costs bit for bit; a direct oracle re-walks every route and tree.",
+            "§4, §5 C01"),
 }
 
 NOT_YET = {
